@@ -708,12 +708,50 @@ def check_C18(ctx):
                                    "constrained strings are ASCII (the two crates count length differently otherwise)"])
 
 
+# ------------------------------------------------------------------------------------------------
+# C19 (Robotics)
+# ------------------------------------------------------------------------------------------------
+def check_C19(ctx):
+    q = ctx.quick()
+    run_mc(ctx, "MC_Robotics", dict(MaxLen=3 if q else 4, MaxDepth=3, Emit=False),
+           ["InvPlanWellFormed", "InvPrecedence", "InvConvertOnce", "InvMixedRejected", "InvDepthLimit"], workers=8, timeout=600, label="MC_Robotics_laws", coverage=False)
+    cases = ctx.path("cases.ndjson")
+    run_mc(ctx, "MC_Robotics", dict(MaxLen=3 if q else 4, MaxDepth=256, Emit=True), ["InvPlanWellFormed", "EmitCase"], workers=8, timeout=900,
+           cases_out=cases, label="MC_Robotics_cases", coverage=False)
+    ctx.exhaustive = True
+    recs = ctx.path("recs.ndjson")
+    st = run_vh(ctx, ["c19", "--cases", cases, "--out", recs, "--random", 400 if q else 20000, "--seed", ctx.seed], timeout=6000)
+    ctx.evaluations += st["records"]
+    ctx.distinct_nontrivial += st["nontrivial"]
+    ctx.samples += st["samples"]
+    for k in ("accepted", "rejected", "literals", "bytes", "max_ms"):
+        ctx.notes[k] = st[k]
+    mism = run_tv(ctx, "TV_Robotics", recs, timeout=6000, shards=12, constants=dict(MaxDepth=256))
+    classify_mismatches(ctx, mism, recs, {}, "robotics float evaluation disagrees with Robotics!Parse (acceptance, plan value, ordinary literal, option off) or is not total")
+    return finish(ctx, "model_checking",
+                  "every token sequence of <= 3/4 tokens over a 15-token alphabet (numbers with separators / exponent, a malformed number, "
+                  "pi, deg, rad, an unknown word, a sexagesimal literal, + - * /, parentheses) x {no tag, !degrees, !radians}: TLC checks "
+                  "the acceptor's laws (well-formed postfix plan, precedence and associativity instances, one degree conversion per deg() "
+                  "call or tag, mixed units under !degrees rejected, nesting limit exact) and emits each sequence with its verdict and plan; "
+                  "generated expression trees to depth 4 rendered with required and redundant parentheses, random blanks and letter case; "
+                  "damaged token lists (acceptance only); nesting 1..257 and 5 000 / 200 000 levels; ~650 ordinary literals incl. decimals "
+                  "next to f32 rounding midpoints, option on versus off, f32 and f64; random strings over an adversarial alphabet for "
+                  "totality (panic, > 2 s); values compared bit for bit with the plan folded in f64 (cast to f32 for f32 targets); "
+                  "non-trivial = accepted expressions of more than one token",
+                  ASSUME_COMMON + ["IEEE arithmetic is folded over the specification's plan by a 40-line stack evaluator in the harness "
+                                   "(deg->rad as v * (PI / 180), sexagesimal fields as in the implementation); the specification decides "
+                                   "structure, units, limits and errors",
+                                   "a run of unary signs is rendered without blanks inside it (the scanner does not skip blanks between signs)",
+                                   "the build without the robotics feature cannot be compared in the same binary: option off stands for it"])
+
+
 CHECKS = {
     "C02": check_C02,
     "C14": check_C14,
     "C16": check_C16,
     "C17": check_C17,
     "C18": check_C18,
+    "C19": check_C19,
     "C15": check_C15,
     "C13": check_C13,
     "C20": check_C20,
